@@ -17,8 +17,10 @@ structure Config where
   tail : Tail := .wait
 
 structure Result where
-  /-- successful writes, oldest first (the SSL reply byte included) -/
-  out : List Bytes
+  /-- the raw one-byte reply to an SSLRequest ('S' or 'N'), when its write succeeded -/
+  ssl : Option UInt8 := none
+  /-- backend messages written successfully, oldest first -/
+  msgs : List BMsg
   ev : List Event
   ending : End
   unsup : Bool := false
@@ -98,14 +100,27 @@ def runMiddlewares : List Bool → Nat → Sess → Sess × Bool
     let s := s.log (.mw i)
     if ok then runMiddlewares r (i + 1) s else (s, false)
 
-def finish (s : Sess) (e : End) (cp sp : List (Bytes × Bytes)) (stuffed : Bool := false) : Result :=
-  { out := s.out.reverse, ev := s.ev.reverse, ending := e, unsup := s.unsup,
+def finish (s : Sess) (e : End) (cp sp : List (Bytes × Bytes)) (stuffed : Bool := false)
+    (ssl : Option UInt8 := none) : Result :=
+  { ssl, msgs := s.out.reverse, ev := s.ev.reverse, ending := e, unsup := s.unsup,
     clientParams := cp, serverParams := sp, stuffed }
+
+/-- all bytes the server wrote, as separate `Write` calls -/
+def Result.out (r : Result) : List Bytes :=
+  (match r.ssl with | some b => [[b]] | none => []) ++ r.msgs.map BMsg.encode
+
+/-- the raw `conn.Write(sslSupported / sslUnsupported)` -/
+def writeRaw (s : Sess) : Sess × Bool :=
+  match s.wleft with
+  | some 0 => (s, false)
+  | some (n + 1) => ({ s with wleft := some n }, true)
+  | none => (s, true)
 
 /-- everything after the protocol version has been read: `body` is the rest of the startup
     packet, `rest` the stream behind it -/
 def serveAfterVersion (cfg : Config) (h : Handlers) (s0 : Sess) (body rest : Bytes)
-    (stuffed : Bool := false) : Result :=
+    (stuffed : Bool := false) (ssl : Option UInt8 := none) : Result :=
+  let finish := fun (s : Sess) (e : End) (cp sp : List (Bytes × Bytes)) (st : Bool) => finish s e cp sp st ssl
   match readClientParams (body.length + 1) body [] with
   | none => finish s0 .closed [] [] stuffed
   | some cp =>
@@ -164,32 +179,34 @@ def serve (cfg : Config) (h : Handlers) (inp : Bytes) (tin : Bytes := []) : Resu
       else if version ≠ versionSSL then serveAfterVersion cfg h s0 body rest
       else if cfg.tls < 2 then
         -- sslUnsupported: 'N', then a fresh startup packet on the same reader
-        match s0.write [ch 'N'] with
+        match writeRaw s0 with
         | (s0, false) => finish s0 .closed [] []
         | (s0, true) =>
+          let ssl := some (ch 'N')
           match readUntyped L rest with
-          | .short => finish s0 (endOf cfg.tail) [] []
-          | .exceeded => finish s0 .closed [] []
+          | .short => finish s0 (endOf cfg.tail) [] [] false ssl
+          | .exceeded => finish s0 .closed [] [] false ssl
           | .msg body rest =>
             match getU32 body with
-            | none => finish s0 .closed [] []
+            | none => finish s0 .closed [] [] false ssl
             | some (version, body) =>
-              if version = versionCancel then finish s0 .closed [] []
-              else serveAfterVersion cfg h s0 body rest
+              if version = versionCancel then finish s0 .closed [] [] false ssl
+              else serveAfterVersion cfg h s0 body rest false ssl
       else
         -- upgrade: 'S', new reader on the TLS connection; buffered plaintext is dropped
-        match s0.write [ch 'S'] with
+        match writeRaw s0 with
         | (s0, false) => finish s0 .closed [] []
         | (s0, true) =>
+          let ssl := some (ch 'S')
           let stuffed := !rest.isEmpty
           match readUntyped L tin with
-          | .short => finish s0 (endOf cfg.tail) [] [] stuffed
-          | .exceeded => finish s0 .closed [] [] stuffed
+          | .short => finish s0 (endOf cfg.tail) [] [] stuffed ssl
+          | .exceeded => finish s0 .closed [] [] stuffed ssl
           | .msg body rest' =>
             match getU32 body with
-            | none => finish s0 .closed [] [] stuffed
+            | none => finish s0 .closed [] [] stuffed ssl
             | some (version, body) =>
-              if version = versionCancel then finish s0 .closed [] [] stuffed
-              else serveAfterVersion cfg h s0 body rest' stuffed
+              if version = versionCancel then finish s0 .closed [] [] stuffed ssl
+              else serveAfterVersion cfg h s0 body rest' stuffed ssl
 
 end Pw
